@@ -330,8 +330,8 @@ static void lib_run(scn_t const *s, double const *x, unsigned L, double *y, int 
                 vf_viol(key, "after %s at step %u; %s", EV_NAME[s->ev], k, g_desc);
             }
         }
-        if (k < 24) { vf_log("[%s] a_tf_iter(x[%u]=%a)", tag, k, x[k]); }
-        else if (k == 24) { vf_log("[%s] a_tf_iter ... (%u more)", tag, L - k); }
+        if (k < 8) { vf_log("[%s] a_tf_iter(x[%u]=%a)", tag, k, x[k]); }
+        else if (k == 8) { vf_log("[%s] a_tf_iter ... (%u more)", tag, L - k); }
         y[k] = a_tf_iter(ctx, x[k]);
         ++vf.evals;
         VF_COUNT("tf-delay-line-state");
